@@ -224,6 +224,15 @@ lines inside inputs/expectations (FALSE there, witness below). -/
 theorem parse_write_roundtrip_partial (os suf : Str) (hse : SufOK '=' suf) (hsd : SufOK '-' suf)
     (cs : List Correction) (h : ∀ c ∈ cs, Simple c) :
     (parseFile os (writeTests suf cs)).map Entry.dkey = cs.map Correction.dkey :=
+  roundtrip_simple os suf hse hsd cs (fun c hc => (h c hc).toS suf)
+
+/-- `roundtrip_suffixed`: the round trip relative to the file's suffix (`SimpleS`).  In a file WITH a suffix the
+suffix disambiguates: inputs and expectations may contain `===`/`---` lines of any length, and lines with another
+suffix — only lines carrying the file's own suffix are excluded.  In a file without suffix, `---` lines
+followed by text are allowed as well; `===` lines are not (witness `roundtrip_fails_equals_line_unsuffixed`). -/
+theorem roundtrip_suffixed (os suf : Str) (hse : SufOK '=' suf) (hsd : SufOK '-' suf)
+    (cs : List Correction) (h : ∀ c ∈ cs, SimpleS suf c) :
+    (parseFile os (writeTests suf cs)).map Entry.dkey = cs.map Correction.dkey :=
   roundtrip_simple os suf hse hsd cs h
 
 /-- The same without the delimiter lengths, in the form used by `update_preserves_partial`. -/
@@ -268,6 +277,27 @@ example : Simple cAttrs :=
 
 /-- Non-vacuity with a name of two lines (`two` / `  lines`, the second one indented). -/
 example : NameOK ['t', 'w', 'o', '\n', ' ', ' ', 'l', 'i', 'n', 'e', 's'] := { lines := by decide, trimmed := by decide }
+
+/-- Non-vacuity of `roundtrip_suffixed`: with the suffix `|||`, an input consisting of the lines `===`, `a`, `-----`
+(a dash line longer than the divider) and `=== x` is fine … -/
+def cDelims : Correction :=
+  { cSimple with input := ['=', '=', '=', '\n', 'a', '\n', '-', '-', '-', '-', '-', '\n', '=', '=', '=', ' ', 'x'] }
+example : SimpleS ['|', '|', '|'] cDelims :=
+  { hlen := by decide, dlen := by decide, attrs := Or.inl rfl, inputCr := by decide
+    name := { lines := by decide, trimmed := by decide }
+    inputLines := by decide, outputLines := by decide }
+example : (parseFile [] (writeTests ['|', '|', '|'] [cDelims])).map Entry.dkey = [cDelims.dkey] := by decide +kernel
+
+/-- … while without a suffix the same correction does not survive: `=== x` becomes the file's suffix and no
+header matches any more (0 tests), and the longer dash line would be taken as the divider. -/
+theorem roundtrip_fails_equals_line_unsuffixed : parseFile [] (writeTests [] [cDelims]) = [] := by decide +kernel
+
+/-- Witness: a line carrying the file's OWN suffix inside an input is still fatal in a suffixed file. -/
+theorem roundtrip_fails_own_suffix_in_input :
+    (parseFile [] (writeTests ['|', '|', '|']
+      [{ cSimple with input := ['a', '\n', '-', '-', '-', '-', '|', '|', '|', '\n', 'b'] }])).map Entry.dkey
+      ≠ [({ cSimple with input := ['a', '\n', '-', '-', '-', '-', '|', '|', '|', '\n', 'b'] } : Correction).dkey] := by
+  decide +kernel
 
 /-- Witness for the dropped hypothesis "no `---` line in the input": a longer dash line inside the input
 is taken as the divider when the file is read back, so the input changes. -/
@@ -366,7 +396,7 @@ theorem update_passes_partial (os : Str) (orc : Oracle) (f : Str) (cs : List Cor
   obtain ⟨new, hnew, hall⟩ := updateEntries_all2 {} orc _ [] cs hp hrun
   simp only [List.nil_append] at hnew
   subst hnew
-  have hbuilt := roundtrip_built os [] ⟨by simp, by simp⟩ ⟨by simp, by simp⟩ cs (fun c hc => (hs c hc).1)
+  have hbuilt := roundtrip_built os [] ⟨by simp, by simp⟩ ⟨by simp, by simp⟩ cs (fun c hc => ((hs c hc).1).toS [])
   have hfile : updateFile {} os orc f = writeTests [] cs := by
     unfold updateFile
     split
@@ -767,7 +797,7 @@ theorem update_idempotent_partial (fx : Fixes) (hk : fx.keepUnrun = true) (ho : 
   simp only [List.nil_append] at hnew
   subst hnew
   -- the written file read back
-  have hbuilt := roundtrip_built os suf hse hsd cs (fun c hc => (hsimple c hc).1)
+  have hbuilt := roundtrip_built os suf hse hsd cs (fun c hc => ((hsimple c hc).1).toS suf)
   have hcs : cs ≠ [] := by
     intro h0; subst h0
     exact hne (all2_nil_right hall)
@@ -775,14 +805,14 @@ theorem update_idempotent_partial (fx : Fixes) (hk : fx.keepUnrun = true) (ho : 
     cases cs with
     | nil => exact absurd rfl hcs
     | cons c0 cs' => exact ⟨c0, cs', rfl⟩
-  have hlines := splitIncl_writeTests suf hse.2 c0 cs' (fun c hc => (hsimple c hc).1)
-  have hfs := firstSuffix_written suf hse c0 cs' (fun c hc => (hsimple c hc).1)
+  have hlines := splitIncl_writeTests suf hse.2 c0 cs' (fun c hc => ((hsimple c hc).1).toS suf)
+  have hfs := firstSuffix_written suf hse c0 cs' (fun c hc => ((hsimple c hc).1).toS suf)
   have hsuf1 : (firstSuffix (splitIncl (writeTests suf (c0 :: cs')))).getD [] = suf := by
     rw [hlines, hfs, getD_fsOf]
   have hpre1 : preamble os (writeTests suf (c0 :: cs')) = [] := by
     unfold preamble
     simp only [hlines, hfs]
-    obtain ⟨p, hp, _⟩ := parseHeader_hdr os suf c0 (bodyL suf c0 ++ tailLines suf cs') (hsimple c0 (by simp)).1 hse
+    obtain ⟨p, hp, _⟩ := parseHeader_hdr os suf c0 (bodyL suf c0 ++ tailLines suf cs') ((hsimple c0 (by simp)).1.toS suf) hse
     simp only [hdrL, List.cons_append] at hp ⊢
     rw [preambleLines, hp]
     simp
